@@ -395,9 +395,30 @@ func TestPublicKeyAPI(t *testing.T) {
 		if gotPt, err := stdOpen(hpkeref.KEMX25519, hpkeref.KDFSHA256, hpkeref.AEADChaCha, main.sk, info, ct); err != nil || !bytes.Equal(gotPt, pt) {
 			rt.Fatalf("%s\ncrypto/hpke cannot open the imported handle's ciphertext %s: %s, %v", desc(), fullHex(ct), fullHex(gotPt), err)
 		}
+		// the exported-from handle itself (possibly several entries, the primary anywhere) encrypts to its primary
+		var encOrig tink.HybridEncrypt
+		if factory == "registry" {
+			encOrig, err = hybrid.NewHybridEncrypt(ks.ph)
+		} else {
+			encOrig, err = hybrid.NewHybridEncryptWithConfig(ks.ph, configV0())
+		}
+		if err != nil {
+			rt.Fatalf("%s\nencrypting primitive for the original public handle: %v", desc(), err)
+		}
+		oct, err := encOrig.Encrypt(pt, info)
+		if err != nil {
+			rt.Fatalf("%s\nEncrypt with the original public handle: %v", desc(), err)
+		}
+		if gotPt, err := hpkeref.Open(suite, main.sk, info, oct); err != nil || !bytes.Equal(gotPt, pt) {
+			rt.Fatalf("%s\nthe RFC 9180 reference cannot open, with the primary's private key, the original public handle's ciphertext %s: %s, %v", desc(), fullHex(oct), fullHex(gotPt), err)
+		}
+		if gotPt, err := dec.Decrypt(oct, info); err != nil || !bytes.Equal(gotPt, pt) {
+			rt.Fatalf("%s\nthe private handle decrypts the original public handle's ciphertext %s to %s, %v", desc(), fullHex(oct), fullHex(gotPt), err)
+		}
 		// the property's binding of context info and payload also holds for this handle
 		r := newRejecter(rt, dec, desc)
 		r.genuine(ct, info)
+		r.genuine(oct, info)
 		r.mustReject("flip-last", flipBit(ct, len(ct)*8-1), info)
 		r.mustReject("flip-kem-first", flipBit(ct, 0), info)
 		r.mustReject("info-extended-zero", ct, cat(info, []byte{0}))
@@ -407,7 +428,9 @@ func TestPublicKeyAPI(t *testing.T) {
 		if ks.primary > 0 {
 			evid.Add("primary_not_first", 1)
 		}
-		class := fmt.Sprintf("pubkeyapi/export=%s/import=%s/%s/%s", exportForm.name, importForm.name, ks.shape, factory)
+		evid.Add("import_"+importForm.name, 1)
+		evid.Add("factory_"+factory, 1)
+		class := fmt.Sprintf("pubkeyapi/export=%s/%s", exportForm.name, ks.shape)
 		evid.Case(class, true, evid.NewH().S(ks.String()).S(exportForm.name).S(importForm.name).S(factory).B(pt).B(info).S(infoClass(info)).Sum(), func() any {
 			return map[string]any{"keyset": ks.String(), "export": exportForm.name, "import": importForm.name, "factory": factory, "pt": gen.Hex(pt), "info": gen.Hex(info), "serialized": fmt.Sprintf("%x", got)}
 		})
